@@ -174,6 +174,7 @@ func genBoxProps(c *Ctx, which string) {
 	genModelBoxes(c, which)
 	genTrees(c, which, seeds)
 	genTopLevelEdits(c, which, files, names)
+	genSencShapes(c, which)
 	if which != "C01" {
 		genMdatHistories(c, which)
 		for i, d := range files {
@@ -1542,4 +1543,49 @@ func exactBox(bs []byte) bool {
 		sz = binary.BigEndian.Uint64(bs[8:])
 	}
 	return sz == uint64(len(bs)) || sz < 8
+}
+
+// genSencShapes: the sample encryption box in every shape Common Encryption allows, alone and inside a traf: per-sample
+// IV size 0 (constant IV: a sample count and nothing else), 8 or 16, with and without sub-sample entries, 0..3 samples,
+// as senc and as the PIFF uuid form is left to the repository files. The decoders cannot know the IV size of a bare
+// box, so what they keep "read but not parsed" must be the same on both paths and re-encode to the same bytes.
+func genSencShapes(c *Ctx, which string) {
+	r := rand.New(rand.NewSource(c.Seed*6151 + 3))
+	for _, ivSize := range []int{0, 8, 16} {
+		for _, subs := range []bool{false, true} {
+			for n := 0; n <= 3; n++ {
+				for rep := 0; rep < c.N(2, 8); rep++ {
+					flags := byte(0)
+					if subs {
+						flags = 2
+					}
+					p := []byte{0, 0, 0, flags, 0, 0, 0, byte(n)}
+					for i := 0; i < n; i++ {
+						iv := make([]byte, ivSize)
+						r.Read(iv)
+						if ivSize == 16 && r.Intn(2) == 0 {
+							copy(iv[8:], make([]byte, 8)) // the usual 64-bit IV + zero block counter
+						}
+						p = append(p, iv...)
+						if subs {
+							k := 1 + r.Intn(3)
+							p = append(p, 0, byte(k))
+							for j := 0; j < k; j++ {
+								p = append(p, 0, byte(r.Intn(200)), 0, 0, byte(r.Intn(4)), byte(r.Intn(256)))
+							}
+						}
+					}
+					senc := wrapBox("senc", p)
+					origin := fmt.Sprintf("senc shape iv=%d subs=%v n=%d", ivSize, subs, n)
+					checkBoxBytes(c, which, senc, origin)
+					c.Eval(string(senc))
+					c.Count("senc-shape")
+					tfhd := wrapBox("tfhd", []byte{0, 2, 0, 0, 0, 0, 0, 1})
+					traf := wrapBox("traf", append(append([]byte{}, tfhd...), senc...))
+					checkBoxBytes(c, which, traf, origin+" in traf")
+					c.Eval(string(traf))
+				}
+			}
+		}
+	}
 }
